@@ -49,7 +49,7 @@ def run(rep, tier, seed):
     sizes = list(range(0, 66)) + [100, 127, 128, 129, 255, 256, 257] if tier == 'quick' else list(range(0, 300)) + [1000, 1023, 1024, 1025, 4097]
     npc = 0
     for fname, hasrc in (('parcpy', True), ('parSetZero', False)):
-        names = mod.find_re(r'^Goldilocks::%s\(' % fname)
+        names = harness.family(mod, r'^Goldilocks::%s\(' % fname)
         rep.floor(fname, len(names), 1)
         for size in sizes:
             for nt in (-3, -1, 0, 1, 2, 3, 4, 5, 7, 8, 9, 16, 64, 100):
